@@ -46,7 +46,7 @@ Acts(t) ==
  \cup (IF "fimul" \in OPS THEN {[op |-> "fimul", path |-> q, v |-> v] : q \in lp, v \in Vs} ELSE {})
  \cup (IF "fiadd" \in OPS /\ DEPTH = 1 THEN {[op |-> "fiadd", path |-> <<>>, v |-> v] : v \in Vs} ELSE {})
  \cup (IF "updcoords" \in OPS THEN {[op |-> "updcoords", path |-> q, fn |-> f] : q \in fp, f \in {"shift", "reverse", "double", "mirror", "recentre"}} ELSE {})
- \cup (IF "obs" \in OPS THEN {[op |-> "obs", kind |-> k] : k \in {"eq", "or", "xor", "and", "sub", "print", "count", "getabsent", "iter", "shape", "dump", "uncompress", "copy", "reroot"}} ELSE {})
+ \cup (IF "obs" \in OPS THEN {[op |-> "obs", kind |-> k] : k \in {"eq", "or", "xor", "and", "sub", "print", "count", "getabsent", "iter", "shape", "dump", "uncompress", "copy", "reroot", "transforms"}} ELSE {})
  \cup (IF "get" \in OPS THEN {[op |-> "get", path |-> q, pt |-> r, mode |-> m, sp |-> sp] :
                                   q \in fp, r \in UNION {Pts(k) : k \in 1..DEPTH}, m \in {"alloc", "dflt"}, sp \in -1..(NC - 1)} ELSE {})
  \cup (IF "getpos" \in OPS THEN {[op |-> o, path |-> q, c |-> c, sp |-> sp] : o \in {"getpos", "getposref"}, q \in fp, c \in Cs, sp \in -1..(NC - 1)} ELSE {})
